@@ -73,14 +73,32 @@ def _worker(args):
         viols, err = [], "HarnessError: %s" % e
     except Exception:
         viols, err = [], traceback.format_exc()
-    # keep at most 2 scenarios per signature per case
+    # Every simulated execution is a pure function of its scenario, so a genuine violation reproduces when the scenario is
+    # executed again.  The first report of each signature is therefore re-executed on the spot; one that does not come back
+    # is not a violation of the code under test but a disturbance of the harness (something outside the simulator touched
+    # the scratch worlds, a process was killed from outside, ...) and is reported as a harness error.
     per = collections.Counter()
     kept = []
+    confirmed = {}
+    unconfirmed = []
     for v in viols:
-        per[v["signature"]] += 1
-        if per[v["signature"]] <= 2:
+        sig = v["signature"]
+        if sig not in confirmed:
+            try:
+                again = mod.replay(v["scenario"], Ctx())
+                confirmed[sig] = any(a["signature"] == sig for a in again)
+            except Exception:
+                confirmed[sig] = False
+            if not confirmed[sig]:
+                unconfirmed.append(sig)
+        if not confirmed[sig]:
+            continue
+        per[sig] += 1
+        if per[sig] <= 2:
             kept.append(v)
     counts = dict(per)
+    if unconfirmed and not err:
+        err = "unconfirmed violation(s) %s: reported once, not reproduced on immediate re-execution of the same scenario" % unconfirmed
     st = ctx.export()
     st["verdict"] = sorted(counts.items())
     return idx, kept, counts, st, err
